@@ -34,6 +34,7 @@ type Hist struct {
 	PW      int `json:"pw"`     // percentage of writes
 	Jitter  int `json:"jitter"` // max random pause between operations, microseconds
 	Kind    int `json:"kind"`   // built-in type the numbers travel as (index into g2kit.Kinds)
+	TS      int `json:"ts"`     // 1: every write carries an explicit source timestamp, random within +-1 h (not monotonic)
 	Salt    int `json:"salt"`
 }
 
@@ -147,7 +148,7 @@ func classify(h Hist, evs []Event) (string, bool, map[string]int) {
 		}
 		return "100+"
 	}
-	class := fmt.Sprintf("clients%d/nodes%d/pw%d/jitter%v/%s/conc%d/conflicts%s", h.Clients, h.Nodes, h.PW, h.Jitter > 0, g2kit.Kinds[h.Kind%len(g2kit.Kinds)], maxc, bucket(conflicts))
+	class := fmt.Sprintf("clients%d/nodes%d/pw%d/jitter%v/%s/ts%d/conc%d/conflicts%s", h.Clients, h.Nodes, h.PW, h.Jitter > 0, g2kit.Kinds[h.Kind%len(g2kit.Kinds)], h.TS, maxc, bucket(conflicts))
 	return class, conflicts > 0, map[string]int{"ops": len(ops), "conflicting_overlaps": conflicts, "max_concurrency": maxc}
 }
 
@@ -196,6 +197,15 @@ func child() {
 	}
 }
 
+// stamp: the source timestamp a write carries (zero = none).  The register contract does not
+// depend on it: a later write replaces the value whatever the timestamps say.
+func stamp(h Hist, rng interface{ Intn(int) int }) time.Time {
+	if h.TS == 0 {
+		return time.Time{}
+	}
+	return time.Date(2026, 1, 1, 12, 0, 0, 0, time.UTC).Add(time.Duration(rng.Intn(7200000)-3600000) * time.Millisecond)
+}
+
 func one(srv *g2kit.Srv, clients []*opcua.Client, h Hist) line {
 	// every history starts with sequential writes of number 0 (in the history's variant kind) to
 	// every node by client c1; they are ordinary events of the history
@@ -203,7 +213,7 @@ func one(srv *g2kit.Srv, clients []*opcua.Client, h Hist) line {
 	var pre []Event
 	for i := 0; i < h.Nodes; i++ {
 		t := seq.Add(1)
-		if err := g2kit.WriteKind(clients[0], srv.Nodes[i], 0, h.Kind, opTimeout); err != nil {
+		if err := g2kit.WriteKindTS(clients[0], srv.Nodes[i], 0, h.Kind, stamp(h, vfgo.Rand(int64(h.Salt)*1000+500+int64(i))), opTimeout); err != nil {
 			return line{ID: h.ID, Err: "reset write: " + err.Error()}
 		}
 		t2 := seq.Add(1)
@@ -232,7 +242,8 @@ func one(srv *g2kit.Srv, clients []*opcua.Client, h Hist) line {
 					n := int64(ci+1)*100000 + int64(k)
 					v := g2kit.Tagged(n, h.Kind)
 					t := seq.Add(1)
-					err := g2kit.WriteKind(c, srv.Nodes[ni], n, h.Kind, opTimeout)
+					ts := stamp(h, rng)
+					err := g2kit.WriteKindTS(c, srv.Nodes[ni], n, h.Kind, ts, opTimeout)
 					t2 := seq.Add(1)
 					my = append(my, Event{T: t, Ev: "call", C: name, Op: "w", N: g2kit.NodeName(ni), V: v})
 					if err != nil {
